@@ -2908,7 +2908,12 @@ primary_expression
         {
           if ($3.value.integer != 0)
           {
-            $$.value.integer = OPERATION(/, $1.value.integer, $3.value.integer);
+            // INT64_MIN \ -1 is undefined at run time (see OP_INT_DIV), and
+            // evaluating it here would trap.
+            if ($1.value.integer == INT64_MIN && $3.value.integer == -1)
+              $$.value.integer = YR_UNDEFINED;
+            else
+              $$.value.integer = OPERATION(/, $1.value.integer, $3.value.integer);
             $$.type = EXPRESSION_TYPE_INTEGER;
           }
           else
@@ -2932,7 +2937,12 @@ primary_expression
 
         if ($3.value.integer != 0)
         {
-          $$.value.integer = OPERATION(%, $1.value.integer, $3.value.integer);
+          // INT64_MIN % -1 is undefined at run time (see OP_MOD), and
+          // evaluating it here would trap.
+          if ($1.value.integer == INT64_MIN && $3.value.integer == -1)
+            $$.value.integer = YR_UNDEFINED;
+          else
+            $$.value.integer = OPERATION(%, $1.value.integer, $3.value.integer);
           $$.type = EXPRESSION_TYPE_INTEGER;
         }
         else
